@@ -261,7 +261,7 @@ int main(int argc, char **argv) {
         for (auto &t : c["threads"].av) { int outs = 0, idx = 0; for (auto &o : t["ops"].av) { if (o[0].i() <= 11 || o[0].i() == OP_WOKS || o[0].i() == OP_BOOTK) { outs++; if (idx > 0) hist = true; } idx++; } if (outs) evalthreads++; }
         return evalthreads >= 2 || hist;
     };
-    H.classify = [](const J &c) { int T = (int)c["threads"].size(); return std::string("T") + (T == 1 ? "1" : T <= 4 ? "2-4" : T <= 16 ? "5-16" : "17-64") + (c["key_on_thread"].i() ? "_keyFromExitedThread" : "") + (c["keygen_thread"].i() ? "_withKeygenThread" : ""); };
+    H.classify = [](const J &c) { int T = (int)c["threads"].size(); return std::string("T") + (T == 1 ? "1" : T <= 4 ? "2-4" : T <= 16 ? "5-16" : "17-64") + (c["key_on_thread"].i() ? "_keyFromExitedThread" : "") + (c["keygen_thread"].i() ? "_withKeygenThread" : "") + ([&]() { for (auto &t : c["threads"].av) for (auto &o : t["ops"].av) if (o[0].i() == OP_BURST) return "_threadChurnBursts"; return ""; })(); };
     if (H.mode == "replay") return H.replay(A.s("replay"));
     const uint64_t kseed = A.u("keyseed", 1);
     const bool offmain = A.i("offmain", 0) != 0; // every key is generated on helper threads that exit: the harness thread itself never runs an FFT
